@@ -520,8 +520,9 @@ def rule_label1(ctx: Ctx) -> RuleResult:
                         # returned unchanged only for constants tested by equality (sqlmodel's id / pk)
                         iff = m.module.parents.get(r)
                         if not (isinstance(iff, ast.If) and isinstance(iff.test, ast.Compare) and isinstance(
-                                iff.test.ops[0], ast.In) and all(isinstance(e, ast.Constant) and e.value.isidentifier()
-                                                                for e in iff.test.comparators[0].elts)):
+                                iff.test.ops[0], ast.In) and isinstance(iff.test.comparators[0], (ast.Tuple, ast.List, ast.Set)) and all(
+                                isinstance(e, ast.Constant) and isinstance(e.value, str) and e.value.isidentifier()
+                                for e in iff.test.comparators[0].elts)):
                             ok = False
                             why.append("returns the raw name")
                     else:
